@@ -29,7 +29,8 @@ ASSUMPTIONS = [
     "cells the statement leaves open are neutral: '+5', leading zeros, '1_0', surrounding blanks, non-ASCII digits, "
     "scientific notation, irregular digit grouping, '.' where ',' is the decimal separator, unpadded date numbers, "
     "seconds 60/61, 29 February without a year, white-space runs in date layouts",
-    "values contain no line breaks (re.MULTILINE stays inert)",
+    "a value with a carriage return, or with a line feed under a RegEx rule that says '$', is neutral (which line "
+    "ends '$' honours is left open); Pattern / Choice / Text values contain no line breaks",
     "third-party behaviour trusted: int(), decimal.Decimal, time.strptime, re, fnmatch",
 ]
 EXHAUSTIVE = True
